@@ -645,7 +645,20 @@ func genC27(seed uint64) *Plan {
 			var raw []byte
 			label := ""
 			base := append([]byte(nil), valid[r.Intn(len(valid))]...)
-			switch r.Intn(15) {
+			switch r.Intn(16) {
+			case 15:
+				// total lengths around the receive buffer size (4096): complete messages of exactly
+				// that size, or only the header announcing it
+				l := pick(r, []int{4090, 4095, 4096, 4097, 4098, 4100, 4102, 4103, 4110, 8192, 8193})
+				info := make([]byte, l-6-4)
+				for j := range info {
+					info[j] = 'a' + byte(j%26)
+				}
+				raw = bmpMsg(bmpInitiation, append([]byte{0, 0, byte(len(info) >> 8), byte(len(info))}, info...))
+				if r.Chance(0.3) {
+					raw = raw[:6+r.Intn(20)]
+				}
+				label = fmt.Sprintf("length_%d", l)
 			case 14:
 				// a long initiation / termination message made of very many tiny TLVs
 				n := pick(r, []int{500, 4000, 16000})
